@@ -6,6 +6,7 @@ package main
 import (
 	"bytes"
 	"encoding/json"
+	"encoding/xml"
 	"fmt"
 	"io"
 	"net/http"
@@ -151,19 +152,19 @@ func genScenario(r *hk.Rand, proto int, thorough bool) scenario {
 	}
 	// body
 	if r.Chance(65) {
-		sc.BodyKind = hk.Pick(r, []string{"bytes", "bytes", "string", "reader", "reader", "eofreader", "getbody", "marshal"})
+		sc.BodyKind = hk.Pick(r, []string{"bytes", "bytes", "string", "reader", "reader", "eofreader", "getbody", "marshal", "jsonmarshal", "xmlmarshal"})
 		sc.BodySeed = r.Intn(256)
 		sizes := bodySizes
 		if thorough && r.Chance(15) {
 			sizes = bodySizesThorough
 		}
 		sc.BodyLen = hk.Pick(r, sizes)
-		if sc.BodyKind == "marshal" {
+		if strings.HasSuffix(sc.BodyKind, "marshal") {
 			sc.MarshalVal = genValue(r)
 			if len(sc.MarshalVal) > 300 {
 				sc.MarshalVal = sc.MarshalVal[:300]
 			}
-			if r.Chance(30) {
+			if sc.BodyKind == "marshal" && r.Chance(30) { // the *Marshal setters choose the content type themselves
 				sc.Req = append(sc.Req, hdrOp{Kind: "set", K: "Content-Type", V: "application/json"})
 			}
 		} else if r.Chance(25) {
@@ -176,6 +177,12 @@ func genScenario(r *hk.Rand, proto int, thorough bool) scenario {
 	return sc
 }
 
+type xmlDoc struct {
+	XMLName xml.Name `xml:"doc"`
+	Value   string   `xml:"value"`
+	N       int      `xml:"n,attr"`
+}
+
 func (sc scenario) marshalObj() map[string]interface{} {
 	return map[string]interface{}{"value": sc.MarshalVal, "n": sc.BodySeed, "list": []int{1, 2, 3}}
 }
@@ -185,8 +192,11 @@ func (sc scenario) bodyBytes() []byte {
 	switch sc.BodyKind {
 	case "none":
 		return nil
-	case "marshal":
+	case "marshal", "jsonmarshal":
 		b, _ := json.Marshal(sc.marshalObj())
+		return b
+	case "xmlmarshal":
+		b, _ := xml.Marshal(xmlDoc{Value: sc.MarshalVal, N: sc.BodySeed})
 		return b
 	}
 	return genBody(sc.BodySeed, sc.BodyLen)
@@ -286,6 +296,10 @@ func build(sc scenario, o *origin.Origin) built {
 		r.SetBody(func() (io.ReadCloser, error) { return io.NopCloser(bytes.NewReader(body)), nil })
 	case "marshal":
 		r.SetBody(sc.marshalObj())
+	case "jsonmarshal":
+		r.SetBodyJsonMarshal(sc.marshalObj())
+	case "xmlmarshal":
+		r.SetBodyXmlMarshal(xmlDoc{Value: sc.MarshalVal, N: sc.BodySeed})
 	}
 	raw := applyURLSpec(c, r, sc.URL, o.URL)
 	return built{c: c, r: r, raw: raw, rh: r.Headers.Clone(), ch: c.Headers.Clone()}
@@ -439,13 +453,13 @@ func coqFields(fs []origin.Field) string {
 }
 
 func (sc scenario) coqAreq(b built) string {
-	kind := map[string]string{"none": "BNone", "bytes": "BKnown", "string": "BKnown", "reader": "BStream", "eofreader": "BStream", "getbody": "BStream", "marshal": "BMarshal"}[sc.BodyKind]
+	kind := map[string]string{"none": "BNone", "bytes": "BKnown", "string": "BKnown", "reader": "BStream", "eofreader": "BStream", "getbody": "BStream", "marshal": "BMarshal", "jsonmarshal": "BKnown", "xmlmarshal": "BKnown"}[sc.BodyKind]
 	body := sc.bodyBytes()
 	bodyCoq := fmt.Sprintf("(gen_body %d%%N %d%%N)", sc.BodySeed, sc.BodyLen)
 	if sc.BodyLen > 600 {
 		bodyCoq = fmt.Sprintf("(long_body %d%%N)", sc.BodyLen) // the model needs only the length of a long body
 	}
-	if sc.BodyKind == "marshal" {
+	if strings.HasSuffix(sc.BodyKind, "marshal") {
 		bodyCoq = hk.CoqBytes(body)
 	}
 	if sc.BodyKind == "none" {
